@@ -291,7 +291,8 @@ fn gen_pair(rng: &mut Rng) -> (String, String, String, Vec<String>, Vec<String>)
     let doc = random_doc(rng, &schema, &OpKnobs::default());
     let ops = doc.ops.iter().map(|o| o.name.clone()).collect();
     let enums = schema.types.iter().filter_map(|t| if let AType::Enum { name, .. } = t { Some(name.clone()) } else { None }).collect();
-    (text, if as_json { "json".into() } else { "graphql".into() }, doc.render(), ops, enums)
+    // every extension the library reads as SDL (`get_set_schema_from_file`): .graphql, .graphqls, .gql
+    (text, if as_json { "json".into() } else { rng.pick(&["graphql", "graphql", "graphqls", "gql"]).to_string() }, doc.render(), ops, enums)
 }
 
 fn gen_placement(rng: &mut Rng) -> Placement {
